@@ -89,12 +89,13 @@ struct DiskEngine : Engine {
         for (int i = 0; i < nread; ++i) {
             KV k; k.set("how", (int64_t)cfg.below(3)).set("open", cfg.chance(0.5) ? "fp" : "name").set("raw", cfg.chance(0.4) ? 1 : 0).set("filter", cfg.chance(0.45) ? (int64_t)cfg.below(NFILTERS) : 0)
              .set("fvia", (int64_t)cfg.below(3)).set("maxpk", cfg.chance(0.2) ? (int64_t)cfg.range(1, 10) : 0).set("stopat", cfg.chance(0.15) ? (int64_t)cfg.range(1, 10) : 0).set("stopvia", (int64_t)root.fork("stopvia").below(2)).set("method", (int64_t)root.fork("method").below(4)).set("snaplen", (int64_t)root.fork("snaplen").below(5)).set("throwat", cfg.chance(0.2) ? (int64_t)cfg.range(1, 8) : 0).set("throwkind", (int64_t)cfg.below(2)).set("cont", cfg.chance(0.5) ? 1 : 0);
+            { Rng tg = root.fork(fmt("togat%d", i).c_str()); k.set("togat", tg.chance(0.2) ? (int64_t)tg.range(1, 6) : 0); }   // the application switches set_extract_raw_pdus() over after that many frames (next_packet passes)
             p.steps.push_back("read " + k.line());
         }
         return p;
     }
 
-    struct Got { uint32_t sec, usec; Bytes bytes; int type; uint32_t size; };
+    struct Got { uint32_t sec, usec; Bytes bytes; int type; uint32_t size; bool israw; };
 
     Verdict execute(const Plan& p, RunStats& st, Trace& tr) {
         using namespace Tins;
@@ -187,6 +188,7 @@ struct DiskEngine : Engine {
             if (l.compare(0, 5, "read ") != 0) continue; ++pass;
             KV k(l.substr(5)); int how = (int)k.num("how"); bool byname = k.str("open") == "name", raw = k.num("raw"); int fidx = (int)k.num("filter"); if (fidx < 0 || fidx >= NFILTERS) fidx = 0; int fvia = (int)k.num("fvia");
             uint32_t maxpk = (uint32_t)k.num("maxpk"); int stopat = (int)k.num("stopat"), throwat = (int)k.num("throwat"), throwkind = (int)k.num("throwkind");
+            const size_t togat = how == 0 ? (size_t)k.num("togat", 0) : 0; bool cur_raw = raw;
             std::string filt = FILTERS[fidx]; sig = mix64(sig, (uint64_t)how * 64 + (byname ? 32 : 0) + (raw ? 16 : 0) + (uint64_t)fidx * 1000 + fvia);
             // expected: records of the visible bytes that parse and match
             // "libpcap says match" for a savefile is decided by a program compiled against a savefile handle of the same bytes
@@ -195,12 +197,12 @@ struct DiskEngine : Engine {
             if (!filt.empty()) { char eb[PCAP_ERRBUF_SIZE]; int sm = file.short_max; int64_t re = file.reio_at; file.short_max = 0; file.reio_at = -1; FILE* fp2 = simdisk::open(path, "rb", &view); dead = fp2 ? pcap_fopen_offline(fp2, eb) : 0; file.short_max = sm; file.reio_at = re;
                                  if (dead && pcap_compile(dead, &prog, filt.c_str(), 1, PCAP_NETMASK_UNKNOWN) == 0) have_prog = true; simdisk::fired.clear(); }
             bool filter_usable = filt.empty() || have_prog;
-            std::vector<Got> expect; size_t skipped_unparsed = 0, skipped_filter = 0;
+            std::vector<Got> expect; size_t skipped_unparsed = 0, skipped_filter = 0; bool mode_raw = raw;
             if (header_ok) for (auto& r : recs) {
                 if (have_prog) { pcap_pkthdr h; memset(&h, 0, sizeof h); h.caplen = r.caplen; h.len = r.len; static const uint8_t z = 0; if (!pcap_offline_filter(&prog, &h, r.data.empty() ? &z : r.data.data())) { ++skipped_filter; continue; } }
-                Got g; g.sec = r.sec; g.usec = r.usec; g.bytes = r.data; g.type = -1; g.size = 0;
-                if (!raw) { std::unique_ptr<PDU> pdu; try { pdu.reset(construct(dlt, r.data)); } catch (malformed_packet&) {} if (!pdu) { ++skipped_unparsed; continue; } g.type = (int)pdu->pdu_type(); g.size = pdu->size(); }
-                expect.push_back(g);
+                Got g; g.sec = r.sec; g.usec = r.usec; g.bytes = r.data; g.type = -1; g.size = 0; g.israw = mode_raw;
+                if (!mode_raw) { std::unique_ptr<PDU> pdu; try { pdu.reset(construct(dlt, r.data)); } catch (malformed_packet&) {} if (!pdu) { ++skipped_unparsed; continue; } g.type = (int)pdu->pdu_type(); g.size = pdu->size(); }
+                expect.push_back(g); if (togat && expect.size() == togat) mode_raw = !mode_raw;
             }
             if (skipped_unparsed) st.inc("probe.malformed_frame_skipped", skipped_unparsed); if (skipped_filter) st.inc("probe.frame_filtered_out", skipped_filter);
             // ---- SUT
@@ -218,8 +220,9 @@ struct DiskEngine : Engine {
                 if (!filt.empty() && filter_usable && !filter_in_ctor) { if (!sn->set_filter(filt)) { if (first_damage < 24) { st.inc("probe.filter_rejected_on_damaged_header"); filter_usable = false; } else return Verdict::bad("disk:set-filter-failed", "set_filter rejected an expression libpcap compiles: " + filt); } }
                 sn->set_extract_raw_pdus(raw); if (method == 3) sn->set_pcap_sniffing_method(pcap_dispatch); if (method == 1 || method == 3) st.inc("probe.pcap_dispatch_method");
                 if (header_ok && first_damage >= 24) { st.inc("chk.link_type"); if (sn->link_type() != dlt) return Verdict::bad("disk:link-type", fmt("link_type()=%d for a file written with link type %d", sn->link_type(), dlt)); }
-                auto take = [&](PDU& pdu, const Timestamp& ts) { Got g; g.sec = (uint32_t)ts.seconds(); g.usec = (uint32_t)ts.microseconds(); g.type = (int)pdu.pdu_type(); g.size = pdu.size(); if (raw) { RawPDU* r = pdu.find_pdu<RawPDU>(); if (r) g.bytes.assign(r->payload().begin(), r->payload().end()); } got.push_back(g); };
-                if (how == 0) { for (;;) { Packet pk(sn->next_packet()); if (!pk.pdu()) break; take(*pk.pdu(), pk.timestamp()); if (got.size() > recs.size() + 5) break; } }
+                auto take = [&](PDU& pdu, const Timestamp& ts) { Got g; g.israw = cur_raw; g.sec = (uint32_t)ts.seconds(); g.usec = (uint32_t)ts.microseconds(); g.type = (int)pdu.pdu_type(); g.size = pdu.size(); if (cur_raw) { RawPDU* r = pdu.find_pdu<RawPDU>(); if (r) g.bytes.assign(r->payload().begin(), r->payload().end()); } got.push_back(g); };
+                if (how == 0) { for (;;) { Packet pk(sn->next_packet()); if (!pk.pdu()) break; take(*pk.pdu(), pk.timestamp()); if (got.size() > recs.size() + 5) break;
+                        if (togat && got.size() == togat) { cur_raw = !cur_raw; sn->set_extract_raw_pdus(cur_raw); st.inc("fault.extract_mode_switched_in_mid_capture"); } } }
                 else if (how == 1) {
                     // stopping from inside the handler either by returning false or through stop_sniff() (pcap_breakloop): the loop ends after this
                     // packet and the sniffer can be read on (not combined with a max_packets that ends the loop first: the break would stay pending)
@@ -258,7 +261,7 @@ struct DiskEngine : Engine {
                 (void)want_n;   // prefix check below uses positions
                 size_t prefix = 0; { size_t ri2 = 0, wi = 0; for (auto& r : recs) { if (ri2++ >= safe) break; if (wi < want.size() && want[wi].sec == r.sec && want[wi].usec == r.usec && want[wi].bytes == r.data) ++wi; } prefix = wi; }
                 if (how == 1 && (maxpk || stopat)) prefix = std::min(prefix, want.size());
-                for (size_t i = 0; i < prefix && i < got.size(); ++i) { st.inc("chk.frame"); compared = true; if ((uint64_t)got[i].sec * 1000000 + got[i].usec != (uint64_t)want[i].sec * 1000000 + want[i].usec || (raw && got[i].bytes != want[i].bytes)) return Verdict::bad("disk:undamaged-prefix-changed", fmt("pass %d: record %zu before the damaged header came back changed", pass, i)); }
+                for (size_t i = 0; i < prefix && i < got.size(); ++i) { st.inc("chk.frame"); compared = true; if ((uint64_t)got[i].sec * 1000000 + got[i].usec != (uint64_t)want[i].sec * 1000000 + want[i].usec || (want[i].israw && got[i].bytes != want[i].bytes)) return Verdict::bad("disk:undamaged-prefix-changed", fmt("pass %d: record %zu before the damaged header came back changed", pass, i)); }
                 if (got.size() < prefix) return Verdict::bad("disk:undamaged-prefix-lost", fmt("pass %d: %zu records precede the damaged header, only %zu came back", pass, prefix, got.size()));
                 st.inc("probe.safety_only_pass"); continue;
             }
@@ -266,8 +269,9 @@ struct DiskEngine : Engine {
             for (size_t i = 0; i < want.size(); ++i) {
                 st.inc("chk.frame"); compared = true;
                 if ((uint64_t)got[i].sec * 1000000 + got[i].usec != (uint64_t)want[i].sec * 1000000 + want[i].usec) return Verdict::bad("disk:timestamp", fmt("pass %d frame %zu: %u.%06u read, %u.%06u stored", pass, i, got[i].sec, got[i].usec, want[i].sec, want[i].usec));
-                if (raw && got[i].bytes != want[i].bytes) return Verdict::bad("disk:bytes", fmt("pass %d frame %zu: bytes differ from the stored record (%zu vs %zu)", pass, i, got[i].bytes.size(), want[i].bytes.size()));
-                if (!raw && (got[i].type != want[i].type || got[i].size != want[i].size)) return Verdict::bad("disk:parsed-differently", fmt("pass %d frame %zu: loop produced type %d size %u, direct construction type %d size %u", pass, i, got[i].type, got[i].size, want[i].type, want[i].size));
+                if (want[i].israw && got[i].bytes != want[i].bytes) return Verdict::bad("disk:bytes", fmt("pass %d frame %zu: bytes differ from the stored record (%zu vs %zu)", pass, i, got[i].bytes.size(), want[i].bytes.size()));
+                if (want[i].israw && got[i].type != (int)PDU::RAW) return Verdict::bad("disk:parsed-differently", fmt("pass %d frame %zu: raw extraction is on, the frame came back as PDU type %d", pass, i, got[i].type));
+                if (!want[i].israw && (got[i].type != want[i].type || got[i].size != want[i].size)) return Verdict::bad("disk:parsed-differently", fmt("pass %d frame %zu: loop produced type %d size %u, direct construction type %d size %u", pass, i, got[i].type, got[i].size, want[i].type, want[i].size));
             }
             // OfflinePacketFilter must agree with libpcap on every stored frame that parses (fvia == 2)
             if (!filt.empty() && filter_usable && fvia == 2 && header_ok) {
